@@ -410,6 +410,9 @@ func (interp *Interpreter) parse(src, name string, inc bool) (node ast.Node, err
 		if err != nil {
 			return nil, initialError
 		}
+		// As for any other statement, only the body of the wrapper is evaluated:
+		// a wrapper kept as function main would be run again by every later evaluation.
+		inFunc = true
 	}
 
 	if inFunc {
